@@ -22,8 +22,6 @@ Proof.
     + right. split; [exact H|reflexivity].
 Qed.
 
-Definition sub (a b : vset) : Prop := forall x, In x a -> In x b.
-
 Lemma subset_spec a b : subset a b = true <-> sub a b.
 Proof.
   unfold subset, sub. rewrite forallb_forall. split; intros H x Hx.
@@ -111,10 +109,6 @@ Section Contract.
 End Contract.
 
 (* ------------------------------------------------------------------ the heap of abstract jobs *)
-Definition pk (st : sstate) (j : nat) : vset := a_pkgs (get_job st j).
-Definition pa (st : sstate) (j : nat) : vset := a_parents (get_job st j).
-Definition ch (st : sstate) (j : nat) : vset := a_childs (get_job st j).
-Definition jobof (st : sstate) (v : N) : option nat := lookupN v (st_v2j st).
 
 Lemma get_set_job st j a k : get_job (set_job st j a) k = if Nat.eqb k j then a else get_job st k.
 Proof. unfold get_job, set_job. simpl. destruct (Nat.eqb k j); reflexivity. Qed.
@@ -124,12 +118,6 @@ Proof. rewrite get_set_job, Nat.eqb_refl. reflexivity. Qed.
 
 Lemma get_set_job_other st j a k : k <> j -> get_job (set_job st j a) k = get_job st k.
 Proof. intros H. rewrite get_set_job. apply Nat.eqb_neq in H. now rewrite H. Qed.
-
-Definition live (st : sstate) (j : nat) : Prop := exists v, jobof st v = Some j.
-
-(* the job graph as the algorithm records it: J -> K when a package of J is a parent of K *)
-Definition E (st : sstate) (J K : nat) : Prop :=
-  exists p, live st K /\ In p (pa st K) /\ jobof st p = Some J.
 
 Lemma crt_map {A} (R1 R2 : A -> A -> Prop) x y :
   (forall a b, R1 a b -> R2 a b) -> clos_refl_trans A R1 x y -> clos_refl_trans A R2 x y.
@@ -301,16 +289,6 @@ Proof.
 Qed.
 
 (* ------------------------------------------------------------------ the invariant of the merge phase *)
-Record Inv (st : sstate) : Prop := {
-  inv_in : forall v j, jobof st v = Some j -> In v (pk st j);
-  inv_own : forall j v, live st j -> In v (pk st j) -> jobof st v = Some j;
-  inv_par : forall j p, live st j -> In p (pa st j) -> exists i, jobof st p = Some i;
-  (* childs is closed under job level reachability *)
-  inv_closed : forall K p J, live st K -> In p (pa st K) -> jobof st p = Some J ->
-               sub (pk st K) (ch st J) /\ sub (ch st K) (ch st J);
-  inv_acyclic : forall J, ~ clos_trans_1n nat (E st) J J
-}.
-
 Lemma E_live_l st J K : E st J K -> live st J.
 Proof. intros (p & _ & _ & H). exists p. exact H. Qed.
 
@@ -365,7 +343,8 @@ Lemma merge_two_inv st i j st' :
   (forall v, jobof st' v = option_map (cfn i j) (jobof st v)) /\
   st_n2j st' = st_n2j st /\ st_v2n st' = st_v2n st /\ st_ref st' = st_ref st /\ st_next st' = st_next st /\
   (forall x, In x (pk st' i) <-> In x (pk st i) \/ In x (pk st j)) /\
-  (forall k, k <> i -> pk st' k = pk st k).
+  (forall k, k <> i -> pk st' k = pk st k) /\
+  (forall k, sub (pa st k) (pa st' (cfn i j k))).
 Proof.
   intros HI Li Lj Hij Rij Rji H.
   unfold merge_two in H.
@@ -453,7 +432,10 @@ Proof.
   { intros K (q & J0 & Hq & HJ0 & P). unfold ai' in Hq. simpl in Hq. apply In_union in Hq. rewrite J1 in HJ0.
     apply P1E in P as [P|P]; [|right; exact P].
     destruct Hq as [Hq|Hq]; [left|right]; (eapply rt_trans; [exact P|apply rt_step; exists q; auto]). }
-  split; [|repeat split; auto; try apply R; apply PKi].
+  split; [|split; [exact JF|split; [apply R|split; [apply R|split; [apply R|split; [apply R|split; [exact PKi|split; [exact PKo|]]]]]]]].
+  2:{ intros k x Hx. unfold cfn. destruct (Nat.eq_dec k j) as [->|Hk].
+      - apply PAi. right. exact Hx.
+      - destruct (Nat.eq_dec k i) as [->|Hki]; [apply PAi; left; exact Hx|rewrite PAo by exact Hki; exact Hx]. }
   constructor.
   - (* inv_in *)
     intros v K Hv. rewrite JF in Hv. destruct (jobof st v) as [k|] eqn:Ek; [|discriminate].
@@ -529,18 +511,31 @@ Proof.
 Qed.
 
 (* ------------------------------------------------------------------ the merge loops *)
+(* parents only grow, whatever job a package ends up in *)
+Definition PMono (st st' : sstate) : Prop :=
+  forall v j, jobof st v = Some j -> exists j', jobof st' v = Some j' /\ sub (pa st j) (pa st' j').
+
+Lemma PMono_refl st : PMono st st.
+Proof. intros v j H. exists j. split; [exact H|apply sub_refl]. Qed.
+
+Lemma PMono_trans a b c : PMono a b -> PMono b c -> PMono a c.
+Proof.
+  intros H1 H2 v j H. destruct (H1 v j H) as (j1 & A & B). destruct (H2 v j1 A) as (j2 & C & D).
+  exists j2. split; [exact C|eapply sub_trans; eassumption].
+Qed.
+
 Definition same_tables (st st' : sstate) : Prop :=
   st_n2j st' = st_n2j st /\ st_v2n st' = st_v2n st /\ st_ref st' = st_ref st /\
-  (forall v, jobof st' v = None <-> jobof st v = None).
+  (forall v, jobof st' v = None <-> jobof st v = None) /\ PMono st st'.
 
 Lemma same_tables_refl st : same_tables st st.
-Proof. repeat split; auto. Qed.
+Proof. split; [reflexivity|]. split; [reflexivity|]. split; [reflexivity|]. split; [tauto|apply PMono_refl]. Qed.
 
 Lemma same_tables_trans a b c : same_tables a b -> same_tables b c -> same_tables a c.
 Proof.
-  intros (A1 & A2 & A3 & A4) (B1 & B2 & B3 & B4). repeat split; try congruence.
-  - intros H. apply A4, B4, H.
-  - intros H. apply B4, A4, H.
+  intros (A1 & A2 & A3 & A4 & A5) (B1 & B2 & B3 & B4 & B5).
+  split; [congruence|]. split; [congruence|]. split; [congruence|]. split; [|eapply PMono_trans; eassumption].
+  intros v. rewrite B4. apply A4.
 Qed.
 
 Lemma merge_inner_spec : forall rem i st todo st',
@@ -572,7 +567,7 @@ Proof.
       destruct (merge_two st i j) as [st1| |] eqn:E2; try discriminate.
       assert (Lj : live st j) by (apply Lr; left; reflexivity).
       destruct (merge_two_inv st i j st1 HI Li Lj (fun e => Hji (eq_sym e)) Rij Rji E2)
-        as (I1 & JF & T1 & T2 & T3 & _ & _ & _).
+        as (I1 & JF & T1 & T2 & T3 & _ & _ & _ & PM).
       assert (LK : forall k, k <> j -> live st k -> live st1 k).
       { intros k Hk (v & Hv). exists v. rewrite JF, Hv. simpl. unfold cfn. destruct (Nat.eq_dec k j); congruence. }
       assert (LB : forall k, live st1 k -> live st k).
@@ -589,10 +584,11 @@ Proof.
       * intros k Hk Lk. apply O; [intros Hx; apply Hk; right; exact Hx|].
         apply LK; [intros ->; apply Hk; left; reflexivity|exact Lk].
       * intros k Lk. apply LB, B, Lk.
-      * eapply same_tables_trans; [|exact S]. split; [exact T1|]. split; [exact T2|]. split; [exact T3|].
-        intros v. split; intros Hn.
-        -- rewrite JF in Hn. destruct (jobof st v); [discriminate|reflexivity].
-        -- rewrite JF, Hn. reflexivity.
+      * eapply same_tables_trans; [|exact S]. split; [exact T1|]. split; [exact T2|]. split; [exact T3|]. split.
+        -- intros v. split; intros Hn.
+           ++ rewrite JF in Hn. destruct (jobof st v); [discriminate|reflexivity].
+           ++ rewrite JF, Hn. reflexivity.
+        -- intros v k Hv. exists (cfn i j k). split; [rewrite JF, Hv; reflexivity|apply PM].
 Qed.
 
 Lemma merge_name_spec : forall fuel todo st jobs st',
@@ -661,14 +657,16 @@ Proof.
 Qed.
 
 Definition same_tables2 (st st' : sstate) : Prop :=
-  st_v2n st' = st_v2n st /\ st_ref st' = st_ref st /\ (forall v, jobof st' v = None <-> jobof st v = None).
+  st_v2n st' = st_v2n st /\ st_ref st' = st_ref st /\ (forall v, jobof st' v = None <-> jobof st v = None) /\
+  PMono st st'.
 
 Lemma merge_names_spec : forall names st st',
   merge_names names st = Ok st' -> Inv st -> LInv st ->
   Inv st' /\ LInv st' /\ same_tables2 st st'.
 Proof.
   induction names as [|name rest IH]; intros st st' H HI HL; cbn [merge_names] in H.
-  - inversion H; subst. split; [exact HI|]. split; [exact HL|]. repeat split; auto.
+  - inversion H; subst. split; [exact HI|]. split; [exact HL|].
+    split; [reflexivity|]. split; [reflexivity|]. split; [tauto|apply PMono_refl].
   - destruct (lookup_str name (st_n2j st)) as [todo|] eqn:El; [|discriminate].
     destruct (merge_name (S (length todo)) todo st) as [[jobs st1]| |] eqn:Em; try discriminate.
     destruct (lookup_str_split name (fun _ => jobs) _ _ El) as (a & k' & b & Hm & Hu).
@@ -676,7 +674,7 @@ Proof.
     { unfold jobs_listed. rewrite Hm, flat_map_app. reflexivity. }
     destruct HL as [L1 L2 L3]. rewrite Hl in L1, L2, L3.
     apply NoDup_app_iff in L1 as (Na & Ntb & Dab). apply NoDup_app_iff in Ntb as (Nt & Nb & Dtb).
-    destruct (merge_name_spec _ _ _ _ _ Em HI) as (I1 & T1 & ND1 & O1 & B1 & (S1 & S2 & S3 & S4) & D1); auto.
+    destruct (merge_name_spec _ _ _ _ _ Em HI) as (I1 & T1 & ND1 & O1 & B1 & (S1 & S2 & S3 & S4 & S5) & D1); auto.
     { intros j Hj. apply L2. apply in_or_app. right. apply in_or_app. left. exact Hj. }
     set (st2 := set_n2j st1 (update_str name (fun _ => jobs) (st_n2j st1))) in *.
     assert (I2 : Inv st2) by (destruct I1; constructor; assumption).
@@ -698,9 +696,9 @@ Proof.
         apply in_app_or in Hin as [Hin|Hin]; [apply in_or_app; left; exact Hin|].
         apply in_app_or in Hin as [Hin|Hin]; apply in_or_app; right; apply in_or_app; [left|right; exact Hin].
         apply D1; assumption. }
-    destruct (IH st2 st' H I2 L2') as (I' & L' & (U1 & U2 & U3)).
+    destruct (IH st2 st' H I2 L2') as (I' & L' & (U1 & U2 & U3 & U4)).
     split; [exact I'|]. split; [exact L'|]. split; [rewrite U1; exact S2|]. split; [rewrite U2; exact S3|].
-    intros v. rewrite U3. apply S4.
+    split; [intros v; rewrite U3; apply S4|]. eapply PMono_trans; [exact S5|exact U4].
 Qed.
 
 Lemma merge_all_spec st st' :
@@ -732,7 +730,9 @@ Record Frame (stk : list N) (ps : vset) (st st' : sstate) : Prop := {
   fr_fresh : forall k j, jobof st' k = Some j -> jobof st k = None -> st_next st <= j;
   (* parents that appear are the caller's packages or new packages *)
   fr_pa_new : forall k j q, jobof st' k = Some j -> In q (pa st' j) ->
-              (jobof st k = Some j /\ In q (pa st j)) \/ In q ps \/ jobof st q = None
+              (jobof st k = Some j /\ In q (pa st j)) \/ In q ps \/ jobof st q = None;
+  fr_tables : forall k j, jobof st k = Some j ->
+              lookupN k (st_ref st') = lookupN k (st_ref st) /\ lookupN k (st_v2n st') = lookupN k (st_v2n st)
 }.
 
 Lemma Frame_refl stk ps st : Frame stk ps st st.
@@ -740,6 +740,12 @@ Proof.
   constructor; auto; try (intros; apply sub_refl).
   intros k j H1 H2. congruence.
 Qed.
+
+Lemma tables_trans (a b c : sstate) k :
+  lookupN k (st_ref b) = lookupN k (st_ref a) /\ lookupN k (st_v2n b) = lookupN k (st_v2n a) ->
+  lookupN k (st_ref c) = lookupN k (st_ref b) /\ lookupN k (st_v2n c) = lookupN k (st_v2n b) ->
+  lookupN k (st_ref c) = lookupN k (st_ref a) /\ lookupN k (st_v2n c) = lookupN k (st_v2n a).
+Proof. intros [A B] [C D]. split; congruence. Qed.
 
 Record SI (stk : list N) (st : sstate) : Prop := {
   si_pk : forall v j, jobof st v = Some j -> pk st j = [v] /\ j < st_next st;
@@ -780,6 +786,8 @@ Proof.
     + auto.
     + right. right. destruct (jobof a q) as [jq|] eqn:Eq; [|reflexivity].
       rewrite (fr_jobof _ _ _ _ H1 q jq Eq) in Hn. discriminate.
+  - intros k j Hk. eapply tables_trans; [apply (fr_tables _ _ _ _ H1 k j Hk)|].
+    apply (fr_tables _ _ _ _ H2 k j), (fr_jobof _ _ _ _ H1), Hk.
 Qed.
 
 Definition Ctx (stk : list N) (st : sstate) (par : nat) (ps : vset) : Prop :=
@@ -861,6 +869,7 @@ Proof.
     + intros k j0 q Hk Hq. destruct (Nat.eq_dec j0 j) as [->|Hj].
       * apply PAj in Hq as [Hq|Hq]; [left; split; assumption|right; left; exact Hq].
       * rewrite PAo in Hq by exact Hj. left. split; assumption.
+    + intros k j0 Hk. split; reflexivity.
 Qed.
 
 (* ---- job.childs |= <returned set>, for the job of the caller *)
@@ -909,6 +918,7 @@ Proof.
     + intros k j0 Hk Hn. assert (j0 <> par) by (eapply Ctx_other; eassumption). rewrite CHo by assumption. apply sub_refl.
     + intros k j0 H1 H2. rewrite JO in H1. congruence.
     + intros k j0 q Hk Hq. rewrite PA in Hq. left. split; assumption.
+    + intros k j0 Hk. split; reflexivity.
 Qed.
 
 Lemma listed_append (m : list (str * list nat)) name j :
@@ -1017,6 +1027,8 @@ Proof.
     + intros k j0 q Hk Hq. destruct (Jinv k j0 Hk) as [[-> ->]|(Hkv & Hk' & Hj0)].
       * rewrite PAj in Hq. right. left. exact Hq.
       * rewrite PAo in Hq by lia. left. split; assumption.
+    + intros k j0 Hk. assert (Hkv : k <> v) by (intros ->; congruence).
+      unfold st1. simpl. fold v. apply N.eqb_neq in Hkv. rewrite Hkv. split; reflexivity.
   - (* Ctx *)
     split; [unfold st1, j; simpl; lia|]. split; [exact PKj|]. split.
     + right. exists v, stk. repeat split; auto.
@@ -1065,6 +1077,8 @@ Proof.
     + right. right. exact Hv.
     + right. right. destruct (jobof st q) as [jq|] eqn:Eq; [|reflexivity].
       rewrite (fr_jobof _ _ _ _ H1 q jq Eq) in Hn. discriminate.
+  - intros k j Hk. eapply tables_trans; [apply (fr_tables _ _ _ _ H1 k j Hk)|].
+    apply (fr_tables _ _ _ _ H2 k j), (fr_jobof _ _ _ _ H1), Hk.
 Qed.
 
 (* the package on top of the stack is finished *)
@@ -1093,7 +1107,7 @@ Definition vid_at (g : graph) (i : nat) : N := match nth_error g i with Some s =
 Definition RankOK (g : graph) (s : step) (ps : vset) : Prop :=
   forall p, In p ps -> if is_pkg s then (s_vid s < p)%N else vid_at g (s_pkgstep s) = p.
 
-Lemma wf_from_nth g : forall l i k s, wf_from g i l = true -> nth_error l k = Some s -> wf_step g (i + k) s = true.
+Lemma wf_from_nth b g : forall l i k s, wf_from b g i l = true -> nth_error l k = Some s -> wf_step b g (i + k) s = true.
 Proof.
   induction l as [|a l IH]; intros i k s H Hn; [destruct k; discriminate|].
   simpl in H. apply andb_true_iff in H as [H1 H2]. destruct k as [|k]; simpl in Hn.
@@ -1101,8 +1115,8 @@ Proof.
   - replace (i + S k) with (S i + k) by lia. apply IH; assumption.
 Qed.
 
-Lemma wf_nth g i s : wf g = true -> nth_error g i = Some s -> wf_step g i s = true.
-Proof. intros H Hn. apply (wf_from_nth g g 0 i s H Hn). Qed.
+Lemma wf_nth g i s : wf g = true -> nth_error g i = Some s -> wf_step true g i s = true.
+Proof. intros H Hn. apply (wf_from_nth true g g 0 i s H Hn). Qed.
 
 Lemma wf_dep_rank g i s d pv :
   wf g = true -> nth_error g i = Some s -> In d (alldeps s) -> vid_at g (s_pkgstep s) = pv ->
@@ -1134,23 +1148,61 @@ Proof.
   rewrite Hk in H1. destruct (N.even (s_vid s)); [discriminate|reflexivity].
 Qed.
 
+(* ---- what addStep records about the dependencies *)
+Definition CV (g : graph) (stk : list N) (st : sstate) : Prop :=
+  forall k j, jobof st k = Some j -> ~ In k stk -> cov_entry g st k.
+
+(* every package step that step [d] stands for is known and has the packages [ps] of the caller among its parents *)
+Definition CovT (g : graph) (st : sstate) (ps : vset) (d : nat) : Prop :=
+  forall Q sQ, target g d Q -> nth_error g Q = Some sQ ->
+  exists jq, jobof st (s_vid sQ) = Some jq /\ sub ps (pa st jq).
+
+Lemma CovT_frame g stk ps ps' st st' d :
+  SI stk st -> Frame stk ps' st st' -> CovT g st ps d -> CovT g st' ps d.
+Proof.
+  intros HS F H Q sQ HT HQ. destruct (H Q sQ HT HQ) as (jq & Hj & Hs).
+  exists jq. split; [apply (fr_jobof _ _ _ _ F), Hj|].
+  eapply sub_trans; [exact Hs|]. apply (fr_pa _ _ _ _ F). apply (si_pk _ _ HS _ _ Hj).
+Qed.
+
+Lemma cov_entry_frame g stk ps st st' k j :
+  SI stk st -> Frame stk ps st st' -> jobof st k = Some j -> cov_entry g st k -> cov_entry g st' k.
+Proof.
+  intros HS F Hk (P & sP & H1 & H2 & H3 & H4 & H5 & H6).
+  destruct (fr_tables _ _ _ _ F k j Hk) as [T1 T2].
+  exists P, sP. split; [rewrite T1; exact H1|]. split; [exact H2|]. split; [exact H3|]. split; [exact H4|].
+  split; [rewrite T2; exact H5|].
+  intros Q sQ HQ HsQ. destruct (H6 Q sQ HQ HsQ) as (jq & Hj & Hin).
+  exists jq. split; [apply (fr_jobof _ _ _ _ F), Hj|].
+  apply (fr_pa _ _ _ _ F jq); [apply (si_pk _ _ HS _ _ Hj)|exact Hin].
+Qed.
+
+(* a step that adds no new packages *)
+Lemma CV_frame g stk ps st st' :
+  SI stk st -> Frame stk ps st st' -> (forall k j, jobof st' k = Some j -> jobof st k = Some j) ->
+  CV g stk st -> CV g stk st'.
+Proof.
+  intros HS F Hb H k j Hk Hn. pose proof (Hb k j Hk) as Hk0.
+  eapply cov_entry_frame; [exact HS|exact F|exact Hk0|]. apply (H k j Hk0 Hn).
+Qed.
+
 (* ---- addStep *)
 Definition StepSpec (g : graph) (rec : nat -> nat -> sstate -> res (sstate * vset)) : Prop :=
   forall sid par st st' r stk s ps,
   rec sid par st = Ok (st', r) -> nth_error g sid = Some s ->
-  SI stk st -> Ctx stk st par ps -> RankOK g s ps -> Pend st par ps [] ->
-  SI stk st' /\ Frame stk ps st st' /\ Pend st' par ps r.
+  SI stk st -> Ctx stk st par ps -> RankOK g s ps -> Pend st par ps [] -> CV g stk st ->
+  SI stk st' /\ Frame stk ps st st' /\ Pend st' par ps r /\ CV g stk st' /\ CovT g st' ps sid.
 
 Lemma loop_spec g rec : StepSpec g rec -> forall ds j st st' stk ps,
   (forall d, In d ds -> exists sd, nth_error g d = Some sd /\ RankOK g sd ps) ->
-  loop_deps rec ds j st = Ok st' -> SI stk st -> Ctx stk st j ps -> Pend st j ps [] ->
-  SI stk st' /\ Frame stk ps st st' /\ Pend st' j ps [].
+  loop_deps rec ds j st = Ok st' -> SI stk st -> Ctx stk st j ps -> Pend st j ps [] -> CV g stk st ->
+  SI stk st' /\ Frame stk ps st st' /\ Pend st' j ps [] /\ CV g stk st' /\ (forall d, In d ds -> CovT g st' ps d).
 Proof.
-  intros HR. induction ds as [|d ds IH]; intros j st st' stk ps Hds H HS HC HP; simpl in H.
-  - inversion H; subst. split; [exact HS|]. split; [apply Frame_refl|exact HP].
+  intros HR. induction ds as [|d ds IH]; intros j st st' stk ps Hds H HS HC HP HV; simpl in H.
+  - inversion H; subst. split; [exact HS|]. split; [apply Frame_refl|]. split; [exact HP|]. split; [exact HV|intros ? []].
   - destruct (rec d j st) as [[st1 cs]| |] eqn:Er; try discriminate.
     destruct (Hds d (or_introl eq_refl)) as (sd & Hsd & Hrk).
-    destruct (HR d j st st1 cs stk sd ps Er Hsd HS HC Hrk HP) as (S1 & F1 & P1).
+    destruct (HR d j st st1 cs stk sd ps Er Hsd HS HC Hrk HP HV) as (S1 & F1 & P1 & V1 & T1).
     pose proof (Ctx_frame _ _ _ _ _ HC F1) as C1.
     destruct (op_childs stk st1 j ps cs S1 C1) as (S2 & F2 & PK2 & PA2 & CHj & CHo).
     set (st2 := add_childs_of st1 j cs) in *.
@@ -1164,17 +1216,23 @@ Proof.
       assert (Hx1 : In x (reach st1 jk)).
       { apply In_reach. apply In_reach in Hx. rewrite PK2, CHo in Hx by exact Hjk. exact Hx. }
       apply CHj. destruct (P1 p k jk Hp Hk Hq x Hx1) as [A|A]; auto. }
-    destruct (IH j st2 st' stk ps (fun d' Hd' => Hds d' (or_intror Hd')) H S2 C2 P2) as (S3 & F3 & P3).
-    split; [exact S3|]. split; [|exact P3].
-    eapply Frame_trans; [exact F1|]. eapply Frame_trans; [exact F2|exact F3].
+    assert (V2 : CV g stk st2) by (eapply CV_frame; [exact S1|exact F2|intros k j0 Hk; exact Hk|exact V1]).
+    destruct (IH j st2 st' stk ps (fun d' Hd' => Hds d' (or_intror Hd')) H S2 C2 P2 V2) as (S3 & F3 & P3 & V3 & T3).
+    split; [exact S3|]. split; [|split; [exact P3|split; [exact V3|]]].
+    + eapply Frame_trans; [exact F1|]. eapply Frame_trans; [exact F2|exact F3].
+    + intros d' [<-|Hd']; [|apply T3; exact Hd'].
+      eapply CovT_frame; [exact S2|exact F3|]. eapply CovT_frame; [exact S1|exact F2|exact T1].
 Qed.
 
 Lemma reach_same st st' k : pk st' k = pk st k -> ch st' k = ch st k -> forall x, In x (reach st' k) <-> In x (reach st k).
 Proof. intros A B x. rewrite !In_reach, A, B. reflexivity. Qed.
 
+Lemma target_pkg g d sd Q : nth_error g d = Some sd -> is_pkg sd = true -> target g d Q -> Q = d.
+Proof. intros H1 H2 HT. inversion HT; subst; [reflexivity|congruence]. Qed.
+
 Lemma add_step_spec g : wf g = true -> forall fuel, StepSpec g (add_step fuel g).
 Proof.
-  intros W. induction fuel as [|f IHf]; intros sid par st st' r stk s ps H Hs HS HC HR HP; [discriminate|].
+  intros W. induction fuel as [|f IHf]; intros sid par st st' r stk s ps H Hs HS HC HR HP HV; [discriminate|].
   cbn [add_step] in H. rewrite Hs in H.
   destruct (lookupN (s_vid s) (st_v2j st)) as [j|] eqn:Ej.
   - (* the package is known: only the parents grow *)
@@ -1187,13 +1245,17 @@ Proof.
     assert (Hpk : a_pkgs (get_job st par) = ps) by apply HC. rewrite Hpk in H.
     inversion H; subst st' r; clear H.
     set (st1 := set_job st j _) in *.
-    split; [exact S1|]. split; [exact F1|].
-    intros p k jk Hp Hkj Hq x Hx. change (jobof st k = Some jk) in Hkj.
-    destruct (Nat.eq_dec jk j) as [->|Hj].
-    + right. exact Hx.
-    + left. rewrite PAo in Hq by exact Hj. rewrite CH1.
-      apply (reach_same st st1 jk (PK1 jk) (CH1 jk)) in Hx.
-      destruct (HP p k jk Hp Hkj Hq x Hx) as [A|[]]. exact A.
+    split; [exact S1|]. split; [exact F1|]. split; [|split].
+    + intros p k jk Hp Hkj Hq x Hx. change (jobof st k = Some jk) in Hkj.
+      destruct (Nat.eq_dec jk j) as [->|Hj].
+      * right. exact Hx.
+      * left. rewrite PAo in Hq by exact Hj. rewrite CH1.
+        apply (reach_same st st1 jk (PK1 jk) (CH1 jk)) in Hx.
+        destruct (HP p k jk Hp Hkj Hq x Hx) as [A|[]]. exact A.
+    + eapply CV_frame; [exact HS|exact F1|intros k j0 Hk0; exact Hk0|exact HV].
+    + intros Q sQ HT HQ. pose proof (target_pkg g sid s Q Hs Hk HT). subst Q.
+      rewrite Hs in HQ. inversion HQ; subst sQ. exists j. split; [exact Ej|].
+      intros x Hx. apply PAj. right. exact Hx.
   - destruct (is_pkg s) eqn:Ek.
     + (* a new package *)
       destruct (register_pkg st sid s par) as [j st1] eqn:Er.
@@ -1203,37 +1265,54 @@ Proof.
       assert (Hlt : forall p, In p ps -> (s_vid s < p)%N).
       { intros p Hp. specialize (HR p Hp). rewrite Ek in HR. exact HR. }
       pose proof (op_register stk st par ps sid s HS HC Ej Hev Hlt) as OR. rewrite Er in OR. simpl in OR.
-      destruct OR as (Ejn & S1 & F1 & C1 & Jv & P1 & _ & _ & Go & Jo & _).
-      rewrite <- Ejn in C1, Jv, P1, Go.
+      destruct OR as (Ejn & S1 & F1 & C1 & Jv & P1 & _ & Hps & Go & Jo & Rv & Nv & _).
+      rewrite <- Ejn in C1, Jv, P1, Go, Hps.
       set (v := s_vid s) in *.
       assert (Hds : forall d, In d (alldeps s) -> exists sd, nth_error g d = Some sd /\ RankOK g sd [v]).
       { intros d Hd. apply (wf_dep_rank g sid s d v W Hs Hd). unfold vid_at. rewrite Hself, Hs. reflexivity. }
-      destruct (loop_spec g (add_step f g) IHf (alldeps s) j st1 st2 (v :: stk) [v] Hds El S1 C1 P1) as (S2 & F2 & P2).
+      assert (V1 : CV g (v :: stk) st1).
+      { intros k j0 Hk Hn. assert (Hkv : k <> v) by (intros ->; apply Hn; left; reflexivity).
+        rewrite Jo in Hk by exact Hkv.
+        eapply cov_entry_frame; [exact HS|exact F1|exact Hk|]. apply (HV k j0 Hk). intros Hin. apply Hn. right. exact Hin. }
+      destruct (loop_spec g (add_step f g) IHf (alldeps s) j st1 st2 (v :: stk) [v] Hds El S1 C1 P1 V1)
+        as (S2 & F2 & P2 & V2 & T2).
       pose proof (fr_jobof _ _ _ _ F2 v j Jv) as Jv2.
       assert (Hvs : forall q, In q stk -> (v < q)%N).
       { intros q Hq. destruct HC as (_ & _ & [[-> _]|(p0 & rest & -> & -> & _)] & Hsort); [destruct Hq|].
         pose proof (Hlt p0 (or_introl eq_refl)). pose proof (Hsort p0 q (or_introl eq_refl) Hq). lia. }
-      split; [eapply SI_pop; eassumption|]. split; [eapply Frame_push; eassumption|].
-      intros p k jk Hp Hkj Hq x Hx.
-      destruct (Ctx_in _ _ _ _ _ HC Hp) as (Hpstk & Hppar & _).
-      assert (Hpv : p <> v) by (intros ->; unfold jobof in Hppar; congruence).
-      destruct (fr_pa_new _ _ _ _ F2 k jk p Hkj Hq) as [[Hk1 Hq1]|[[E|[]]|Hn]]; [|congruence|].
-      2:{ rewrite (fr_jobof _ _ _ _ F1 p par Hppar) in Hn. discriminate. }
-      destruct (N.eq_dec k v) as [->|Hkv].
-      * right. rewrite Jv in Hk1. inversion Hk1; subst jk. exact Hx.
-      * left. rewrite Jo in Hk1 by exact Hkv.
-        assert (Hjk : jk <> j) by (destruct (si_pk _ _ HS k jk Hk1) as [_ L]; rewrite <- Ejn; lia).
-        unfold pa in Hq1. rewrite Go in Hq1 by exact Hjk. fold (pa st jk) in Hq1.
-        pose proof (Frame_push _ _ _ _ _ _ Ej F1 F2) as F02.
-        destruct (si_par _ _ HS k jk p Hk1 Hq1) as [_ Hkp].
-        assert (Hks : ~ In k stk).
-        { intros Hin. destruct HC as (_ & _ & _ & Hsort). pose proof (Hsort p k Hp Hin). lia. }
-        destruct (si_pk _ _ HS k jk Hk1) as [_ Ljk].
-        assert (Hx0 : In x (reach st jk)).
-        { apply In_reach. apply In_reach in Hx. rewrite (fr_pk _ _ _ _ F02 jk Ljk) in Hx.
-          destruct Hx as [Hx|Hx]; [left; exact Hx|right; apply (fr_frozen _ _ _ _ F02 k jk Hk1 Hks); exact Hx]. }
-        destruct (HP p k jk Hp Hk1 Hq1 x Hx0) as [A|[]].
-        apply (fr_ch _ _ _ _ F02 par); [apply HC|exact A].
+      pose proof (Frame_push _ _ _ _ _ _ Ej F1 F2) as F02.
+      split; [eapply SI_pop; eassumption|]. split; [exact F02|]. split; [|split].
+      * intros p k jk Hp Hkj Hq x Hx.
+        destruct (Ctx_in _ _ _ _ _ HC Hp) as (Hpstk & Hppar & _).
+        assert (Hpv : p <> v) by (intros ->; unfold jobof in Hppar; congruence).
+        destruct (fr_pa_new _ _ _ _ F2 k jk p Hkj Hq) as [[Hk1 Hq1]|[[E|[]]|Hn]]; [|congruence|].
+        2:{ rewrite (fr_jobof _ _ _ _ F1 p par Hppar) in Hn. discriminate. }
+        destruct (N.eq_dec k v) as [->|Hkv].
+        -- right. rewrite Jv in Hk1. inversion Hk1; subst jk. exact Hx.
+        -- left. rewrite Jo in Hk1 by exact Hkv.
+           assert (Hjk : jk <> j) by (destruct (si_pk _ _ HS k jk Hk1) as [_ L]; rewrite Ejn; lia).
+           unfold pa in Hq1. rewrite Go in Hq1 by exact Hjk. fold (pa st jk) in Hq1.
+           destruct (si_par _ _ HS k jk p Hk1 Hq1) as [_ Hkp].
+           assert (Hks : ~ In k stk).
+           { intros Hin. destruct HC as (_ & _ & _ & Hsort). pose proof (Hsort p k Hp Hin). lia. }
+           destruct (si_pk _ _ HS k jk Hk1) as [_ Ljk].
+           assert (Hx0 : In x (reach st jk)).
+           { apply In_reach. apply In_reach in Hx. rewrite (fr_pk _ _ _ _ F02 jk Ljk) in Hx.
+             destruct Hx as [Hx|Hx]; [left; exact Hx|right; apply (fr_frozen _ _ _ _ F02 k jk Hk1 Hks); exact Hx]. }
+           destruct (HP p k jk Hp Hk1 Hq1 x Hx0) as [A|[]].
+           apply (fr_ch _ _ _ _ F02 par); [apply HC|exact A].
+      * (* the finished package is covered by its own loop *)
+        intros k j0 Hk Hn. destruct (N.eq_dec k v) as [->|Hkv].
+        -- destruct (fr_tables _ _ _ _ F2 v j Jv) as [T1 T2'].
+           exists sid, s. split; [rewrite T1; exact Rv|]. split; [exact Hs|]. split; [exact Ek|]. split; [reflexivity|].
+           split; [rewrite T2'; exact Nv|].
+           intros Q sQ (sP & e & HsP & _ & He & HT) HQ. rewrite Hs in HsP. inversion HsP; subst sP.
+           destruct (T2 e He Q sQ HT HQ) as (jq & Hjq & Hsub). exists jq. split; [exact Hjq|].
+           apply Hsub. left. reflexivity.
+        -- apply (V2 k j0 Hk). intros [E|Hin]; [congruence|contradiction].
+      * intros Q sQ HT HQ. pose proof (target_pkg g sid s Q Hs Ek HT). subst Q.
+        rewrite Hs in HQ. inversion HQ; subst sQ. exists j. split; [exact Jv2|].
+        eapply sub_trans; [exact Hps|]. apply (fr_pa _ _ _ _ F2 j). apply (si_pk _ _ S1 _ _ Jv).
     + (* a checkout or build step: it belongs to the job of the caller *)
       destruct (loop_deps (add_step f g) (alldeps s) par st) as [st2| |] eqn:El; try discriminate.
       inversion H; subst st' r; clear H.
@@ -1241,7 +1320,769 @@ Proof.
       { intros d Hd. destruct (wf_dep_rank g sid s d _ W Hs Hd eq_refl) as (_ & sd & Hsd & Hrk).
         exists sd. split; [exact Hsd|]. intros p Hp. specialize (HR p Hp). rewrite Ek in HR.
         apply Hrk. left. exact HR. }
-      destruct (loop_spec g (add_step f g) IHf (alldeps s) par st st2 stk ps Hds El HS HC HP) as (S2 & F2 & P2).
-      split; [exact S2|]. split; [exact F2|].
-      intros p k jk Hp Hkj Hq x Hx. destruct (P2 p k jk Hp Hkj Hq x Hx) as [A|[]]. left. exact A.
+      destruct (loop_spec g (add_step f g) IHf (alldeps s) par st st2 stk ps Hds El HS HC HP HV) as (S2 & F2 & P2 & V2 & T2).
+      split; [exact S2|]. split; [exact F2|]. split; [|split; [exact V2|]].
+      * intros p k jk Hp Hkj Hq x Hx. destruct (P2 p k jk Hp Hkj Hq x Hx) as [A|[]]. left. exact A.
+      * intros Q sQ HT HQ. inversion HT as [d sd H1 H2|d sd e q H1 H2 H3 H4]; subst.
+        -- rewrite Hs in H1. inversion H1; subst sd. congruence.
+        -- rewrite Hs in H1. inversion H1; subst sd. apply (T2 e H3 Q sQ H4 HQ).
+Qed.
+
+(* ---- the roots *)
+Lemma op_dummy st : SI [] st ->
+  let st1 := snd (alloc_job st empty_job) in
+  SI [] st1 /\ Ctx [] st1 (st_next st) [] /\ Frame [] [] st st1 /\
+  st_ref st1 = st_ref st /\ st_v2n st1 = st_v2n st /\ st_v2j st1 = st_v2j st.
+Proof.
+  intros HS st1. unfold alloc_job in st1. simpl in st1.
+  set (j := st_next st) in *.
+  assert (Gj : get_job st1 j = empty_job) by (unfold get_job, st1; simpl; fold j; now rewrite Nat.eqb_refl).
+  assert (Go : forall k, k <> j -> get_job st1 k = get_job st k).
+  { intros k Hk. unfold get_job, st1. simpl. fold j. apply Nat.eqb_neq in Hk. now rewrite Hk. }
+  assert (JO : forall x, jobof st1 x = jobof st x) by reflexivity.
+  assert (Lt : forall x k, jobof st x = Some k -> k <> j).
+  { intros x k Hx. destruct (si_pk _ _ HS x k Hx) as [_ L]. unfold j. lia. }
+  split; [|split; [|split; [|repeat split]]].
+  - constructor.
+    + intros x k Hx. change (jobof st x = Some k) in Hx. unfold pk. rewrite Go by (eapply Lt; eassumption).
+      destruct (si_pk _ _ HS x k Hx) as [A B]. split; [exact A|]. unfold st1. simpl. lia.
+    + intros x k Hx. apply (si_even _ _ HS x k Hx).
+    + intros k jk q Hk Hq. change (jobof st k = Some jk) in Hk. unfold pa in Hq. rewrite Go in Hq by (eapply Lt; eassumption).
+      apply (si_par _ _ HS k jk q Hk Hq).
+    + intros k jk q jq Hk Hq Hn Hjq. change (jobof st k = Some jk) in Hk. change (jobof st q = Some jq) in Hjq.
+      unfold pa in Hq. rewrite Go in Hq by (eapply Lt; eassumption).
+      unfold reach, ch. rewrite !Go by (eapply Lt; eassumption). apply (si_closed _ _ HS k jk q jq Hk Hq Hn Hjq).
+    + intros p jp q [].
+    + intros p [].
+    + apply (si_nodup _ _ HS).
+    + apply (si_listed _ _ HS).
+  - split; [unfold st1; simpl; unfold j; lia|]. split; [unfold pk; rewrite Gj; reflexivity|].
+    split; [left; split; reflexivity|intros p q []].
+  - constructor.
+    + unfold st1. simpl. lia.
+    + intros x k Hx. exact Hx.
+    + intros k Hk. unfold pk. rewrite Go by (unfold j; lia). reflexivity.
+    + intros k Hk. unfold pa. rewrite Go by (unfold j; lia). apply sub_refl.
+    + intros k Hk. unfold ch. rewrite Go by (unfold j; lia). apply sub_refl.
+    + intros k j0 Hk _. unfold ch. rewrite Go by (eapply Lt; eassumption). apply sub_refl.
+    + intros k j0 H1 H2. rewrite JO in H1. congruence.
+    + intros k j0 q Hk Hq. left. change (jobof st k = Some j0) in Hk. split; [exact Hk|].
+      unfold pa in Hq. rewrite Go in Hq by (eapply Lt; eassumption). exact Hq.
+    + intros k j0 Hk. split; reflexivity.
+Qed.
+
+Lemma span_roots_spec g : wf g = true -> forall roots st st',
+  span_roots g roots st = Ok st' -> SI [] st -> CV g [] st ->
+  SI [] st' /\ CV g [] st' /\ (forall v j, jobof st v = Some j -> jobof st' v = Some j) /\
+  (forall r s, In r roots -> nth_error g r = Some s -> is_pkg s = true -> exists j, jobof st' (s_vid s) = Some j).
+Proof.
+  intros W. induction roots as [|r rest IH]; intros st st' H HS HV; cbn [span_roots] in H.
+  - inversion H; subst. split; [exact HS|]. split; [exact HV|]. split; [auto|intros ? ? []].
+  - destruct (op_dummy st HS) as (S1 & C1 & F1 & _).
+    unfold alloc_job in H, S1, C1, F1. cbn [snd] in S1, C1, F1.
+    set (st1 := mkSt _ _ _ _ _ _) in *.
+    destruct (add_step (S (length g)) g r (st_next st) st1) as [[st2 cs]| |] eqn:Ea; try discriminate.
+    assert (Hr : exists s, nth_error g r = Some s).
+    { cbn [add_step] in Ea. destruct (nth_error g r) as [s|]; [exists s; reflexivity|discriminate]. }
+    destruct Hr as [s Hs].
+    assert (V1 : CV g [] st1) by (eapply CV_frame; [exact HS|exact F1|intros k j0 Hk; exact Hk|exact HV]).
+    destruct (add_step_spec g W (S (length g)) r (st_next st) st1 st2 cs [] s [] Ea Hs S1 C1) as (S2 & F2 & _ & V2 & T2); auto.
+    + intros p [].
+    + intros p k jk [].
+    + destruct (IH st2 st' H S2 V2) as (S3 & V3 & M3 & R3).
+      split; [exact S3|]. split; [exact V3|]. split.
+      * intros v j Hv. apply M3. apply (fr_jobof _ _ _ _ F2). exact Hv.
+      * intros r0 s0 [<-|Hr0] Hs0 Hp0.
+        -- rewrite Hs in Hs0. inversion Hs0; subst s0.
+           destruct (T2 r s (tg_pkg g r s Hs Hp0) Hs) as (jq & Hjq & _). exists jq. apply M3. exact Hjq.
+        -- apply (R3 r0 s0 Hr0 Hs0 Hp0).
+Qed.
+
+Lemma SI_init : SI [] init_state.
+Proof.
+  constructor; try (intros; discriminate); try (intros ? []).
+  - constructor.
+  - intros j. split; [intros []|intros (v & Hv); discriminate].
+Qed.
+
+(* after spanning: the invariant of the merge phase *)
+Lemma SI_rank st J K : SI [] st -> clos_trans_1n nat (E st) J K ->
+  forall vJ vK, jobof st vJ = Some J -> jobof st vK = Some K -> (vK < vJ)%N.
+Proof.
+  intros HS P. induction P as [J K (p & L & Hp & HJ)|J M K (p & (vM & HM) & Hp & HJ) _ IH]; intros vJ vK HvJ HvK.
+  - assert (p = vJ) by (eapply SI_inj; eassumption). subst p.
+    apply (si_par _ _ HS vK K vJ HvK Hp).
+  - assert (p = vJ) by (eapply SI_inj; eassumption). subst p.
+    destruct (si_par _ _ HS vM M vJ HM Hp) as [_ L1]. pose proof (IH vM vK HM HvK). lia.
+Qed.
+
+Lemma SI_Inv st : SI [] st -> Inv st /\ LInv st.
+Proof.
+  intros HS. split.
+  - constructor.
+    + intros v j Hv. destruct (si_pk _ _ HS v j Hv) as [-> _]. left. reflexivity.
+    + intros j v (v0 & Hv0) Hin. destruct (si_pk _ _ HS v0 j Hv0) as [E0 _]. rewrite E0 in Hin.
+      destruct Hin as [<-|[]]. exact Hv0.
+    + intros j p (v0 & Hv0) Hp. apply (si_par _ _ HS v0 j p Hv0 Hp).
+    + intros K p J (k & Hk) Hp HJ.
+      pose proof (si_closed _ _ HS k K p J Hk Hp (fun x => x) HJ) as C.
+      split; intros x Hx; apply C, In_reach; auto.
+    + intros J P. assert (L : live st J) by (inversion P; subst; eapply E_live_l; eassumption).
+      destruct L as (vJ & HvJ).
+      pose proof (SI_rank st J J HS P vJ vJ HvJ HvJ). lia.
+  - constructor.
+    + apply (si_nodup _ _ HS).
+    + intros j Hj. apply (si_listed _ _ HS), Hj.
+    + intros j Hj. apply (si_listed _ _ HS), Hj.
+Qed.
+
+Lemma CV_init g : CV g [] init_state.
+Proof. intros k j H. discriminate. Qed.
+
+Definition roots_known (g : graph) (roots : list nat) (st : sstate) : Prop :=
+  forall r s, In r roots -> nth_error g r = Some s -> is_pkg s = true -> exists j, jobof st (s_vid s) = Some j.
+
+Theorem span_Inv g roots st : wf g = true -> span g roots = Ok st ->
+  Inv st /\ LInv st /\ Cover g st /\ roots_known g roots st.
+Proof.
+  intros W H.
+  destruct (span_roots_spec g W roots init_state st H SI_init (CV_init g)) as (S & V & _ & R).
+  destruct (SI_Inv st S) as [I L]. split; [exact I|]. split; [exact L|]. split; [|exact R].
+  intros k j Hk. apply (V k j Hk). intros [].
+Qed.
+
+Lemma Cover_mono g st st' :
+  Cover g st -> PMono st st' -> st_ref st' = st_ref st -> st_v2n st' = st_v2n st ->
+  (forall v, jobof st' v = None <-> jobof st v = None) -> Cover g st'.
+Proof.
+  intros HC PM R1 R2 HN k j' Hk.
+  destruct (jobof st k) as [j|] eqn:Ek; [|apply HN in Ek; congruence].
+  destruct (HC k j Ek) as (P & sP & H1 & H2 & H3 & H4 & H5 & H6).
+  exists P, sP. split; [rewrite R1; exact H1|]. split; [exact H2|]. split; [exact H3|]. split; [exact H4|].
+  split; [rewrite R2; exact H5|].
+  intros Q sQ HQ HsQ. destruct (H6 Q sQ HQ HsQ) as (jq & Hjq & Hin).
+  destruct (PM _ _ Hjq) as (jq' & A & B). exists jq'. split; [exact A|apply B; exact Hin].
+Qed.
+
+Theorem sanitize_Inv g roots nm : wf g = true -> sanitize g roots = Ok nm ->
+  Inv (nm_state nm) /\ LInv (nm_state nm) /\ Cover g (nm_state nm) /\ roots_known g roots (nm_state nm).
+Proof.
+  intros W H. unfold sanitize in H.
+  destruct (span g roots) as [st0| |] eqn:Es; try discriminate.
+  destruct (merge_all st0) as [st| |] eqn:Em; try discriminate.
+  destruct (final_names st (sort_by fst (st_n2j st)) []) as [fnm| |]; try discriminate.
+  inversion H; subst nm; clear H. simpl.
+  destruct (span_Inv g roots st0 W Es) as (I0 & L0 & C0 & R0).
+  destruct (merge_all_spec st0 st Em I0 L0) as (I1 & L1 & (T1 & T2 & T3 & T4)).
+  split; [exact I1|]. split; [exact L1|]. split.
+  - eapply Cover_mono; eassumption.
+  - intros r s Hr Hs Hp. destruct (R0 r s Hr Hs Hp) as (j & Hj). destruct (T4 _ _ Hj) as (j' & A & _). exists j'. exact A.
+Qed.
+
+(* ------------------------------------------------------------------ witnesses (findings F4 and F13) *)
+Open Scope N_scope.
+(* witness_f13: corpus/C20/f13_cyclic_reference_instance.json *)
+Definition witness_f13_graph : graph :=
+  [(mkS KCheckout 1 23 0 [117;116;105;108;45;97] [117;116;105;108] false false (@nil N) (@nil N) None);
+   (mkS KCheckout 1 21 1 [117;116;105;108] [117;116;105;108] false false (@nil N) (@nil N) None);
+   (mkS KCheckout 1 19 2 [115;98;120;45;100;101;118] [115;98;120] false false (@nil N) (@nil N) None);
+   (mkS KCheckout 1 17 3 [115;98;120;45;97;45;98] [115;98;120] false false (@nil N) (@nil N) None);
+   (mkS KCheckout 1 15 4 [115;98;120] [115;98;120] false false (@nil N) (@nil N) None);
+   (mkS KBuild 3 15 4 [115;98;120] [115;98;120] false true [4] (@nil N) None);
+   (mkS KCheckout 1 14 5 [115;98;120;45;50] [115;98;120] false false (@nil N) (@nil N) None);
+   (mkS KCheckout 1 12 6 [115;98;120;45;100;101;118] [115;98;120] false false (@nil N) (@nil N) None);
+   (mkS KCheckout 1 10 7 [115;98;120;45;97;45;98] [115;98;120] false false (@nil N) (@nil N) None);
+   (mkS KBuild 5 10 7 [115;98;120;45;97;45;98] [115;98;120] false true [8] (@nil N) None);
+   (mkS KPackage 2 10 7 [115;98;120;45;97;45;98] [115;98;120] false true [9] (@nil N) None);
+   (mkS KBuild 7 12 6 [115;98;120;45;100;101;118] [115;98;120] false true [7; 10] (@nil N) (Some 10));
+   (mkS KPackage 10 12 6 [115;98;120;45;100;101;118] [115;98;120] false true [11] (@nil N) (Some 10));
+   (mkS KBuild 9 14 5 [115;98;120;45;50] [115;98;120] false true [6; 12] (@nil N) None);
+   (mkS KPackage 4 14 5 [115;98;120;45;50] [115;98;120] false true [13] (@nil N) None);
+   (mkS KPackage 6 15 4 [115;98;120] [115;98;120] false true [5] [14] None);
+   (mkS KBuild 11 17 3 [115;98;120;45;97;45;98] [115;98;120] false true [3] (@nil N) (Some 15));
+   (mkS KPackage 8 17 3 [115;98;120;45;97;45;98] [115;98;120] false true [16] (@nil N) (Some 15));
+   (mkS KBuild 7 19 2 [115;98;120;45;100;101;118] [115;98;120] false true [2; 17] (@nil N) (Some 17));
+   (mkS KPackage 10 19 2 [115;98;120;45;100;101;118] [115;98;120] false true [18] (@nil N) (Some 17));
+   (mkS KBuild 13 21 1 [117;116;105;108] [117;116;105;108] false true [1; 19] (@nil N) (Some 15));
+   (mkS KPackage 12 21 1 [117;116;105;108] [117;116;105;108] false true [20] (@nil N) (Some 15));
+   (mkS KBuild 15 23 0 [117;116;105;108;45;97] [117;116;105;108] false true [0; 21] (@nil N) (Some 15));
+   (mkS KPackage 14 23 0 [117;116;105;108;45;97] [117;116;105;108] false true [22] (@nil N) (Some 15))].
+Definition witness_f13_roots : list nat := map N.to_nat [23].
+Definition witness_f13_sroots : list nat := map N.to_nat [23].
+(* witness_f4: corpus/C20/f4_case_collision.json *)
+Definition witness_f4_graph : graph :=
+  [(mkS KCheckout 1 11 0 [114;111;111;116] [114;111;111;116] false false (@nil N) (@nil N) None);
+   (mkS KCheckout 1 9 1 [108;105;98] [108;105;98] false false (@nil N) (@nil N) None);
+   (mkS KCheckout 1 7 2 [109;105;100] [109;105;100] false false (@nil N) (@nil N) None);
+   (mkS KCheckout 1 5 3 [76;105;98] [76;105;98] false false (@nil N) (@nil N) None);
+   (mkS KBuild 3 5 3 [76;105;98] [76;105;98] false true [3] (@nil N) None);
+   (mkS KPackage 2 5 3 [76;105;98] [76;105;98] false true [4] (@nil N) None);
+   (mkS KBuild 5 7 2 [109;105;100] [109;105;100] false true [2; 5] (@nil N) None);
+   (mkS KPackage 4 7 2 [109;105;100] [109;105;100] false true [6] (@nil N) None);
+   (mkS KBuild 7 9 1 [108;105;98] [108;105;98] false true [1; 7] (@nil N) None);
+   (mkS KPackage 6 9 1 [108;105;98] [108;105;98] false true [8] (@nil N) None);
+   (mkS KBuild 9 11 0 [114;111;111;116] [114;111;111;116] false true [0; 9] (@nil N) None);
+   (mkS KPackage 8 11 0 [114;111;111;116] [114;111;111;116] false true [10] (@nil N) None)].
+Definition witness_f4_roots : list nat := map N.to_nat [11].
+Definition witness_f4_sroots : list nat := map N.to_nat [11].
+(* witness_merge: corpus/C20/f4_numbering_collision.json: jobs {q-a,q-b}[V=1] -> t -> {q-b,q-c}[V=2], numbered q-1, q-2; recipe q-1 *)
+Definition witness_merge_graph : graph :=
+  [(mkS KCheckout 1 20 0 [114;111;111;116] [114;111;111;116] false false (@nil N) (@nil N) None);
+   (mkS KCheckout 1 12 1 [113;45;97] [113] false false (@nil N) (@nil N) None);
+   (mkS KCheckout 1 10 2 [116] [116] false false (@nil N) (@nil N) None);
+   (mkS KCheckout 1 5 3 [113;45;98] [113] false false (@nil N) (@nil N) None);
+   (mkS KBuild 3 5 3 [113;45;98] [113] false true [3] (@nil N) None);
+   (mkS KPackage 2 5 3 [113;45;98] [113] false true [4] (@nil N) None);
+   (mkS KCheckout 1 8 4 [113;45;99] [113] false false (@nil N) (@nil N) None);
+   (mkS KBuild 5 8 4 [113;45;99] [113] false true [6] (@nil N) None);
+   (mkS KPackage 4 8 4 [113;45;99] [113] false true [7] (@nil N) None);
+   (mkS KBuild 7 10 2 [116] [116] false true [2; 5; 8] (@nil N) None);
+   (mkS KPackage 6 10 2 [116] [116] false true [9] (@nil N) None);
+   (mkS KBuild 9 12 1 [113;45;97] [113] false true [1; 10] (@nil N) None);
+   (mkS KPackage 8 12 1 [113;45;97] [113] false true [11] (@nil N) None);
+   (mkS KCheckout 1 15 5 [113;45;98] [113] false false (@nil N) (@nil N) None);
+   (mkS KBuild 11 15 5 [113;45;98] [113] false true [13] (@nil N) None);
+   (mkS KPackage 10 15 5 [113;45;98] [113] false true [14] (@nil N) None);
+   (mkS KCheckout 1 18 6 [113;45;49] [113;45;49] false false (@nil N) (@nil N) None);
+   (mkS KBuild 13 18 6 [113;45;49] [113;45;49] false true [16] (@nil N) None);
+   (mkS KPackage 12 18 6 [113;45;49] [113;45;49] false true [17] (@nil N) None);
+   (mkS KBuild 15 20 0 [114;111;111;116] [114;111;111;116] false true [0; 12; 15; 18] (@nil N) None);
+   (mkS KPackage 14 20 0 [114;111;111;116] [114;111;111;116] false true [19] (@nil N) None)].
+Definition witness_merge_roots : list nat := map N.to_nat [20].
+(* impl: abstract [[[2, 4], [6], [2, 4]], [[6], [8], [2, 4, 6]], [[8, 10], [14], [2, 4, 6, 8, 10]], [[12], [14], [12]], [[14], [], [2, 4, 6, 8, 10, 12, 14]]] names [[2, 'q-2'], [4, 'q-2'], [6, 't'], [8, 'q-1'], [10, 'q-1'], [12, 'q-1'], [14, 'root']] *)
+
+Close Scope N_scope.
+
+(* two distinct abstract jobs whose names differ only in case: one internal Jenkins job name *)
+Definition name_collision (nm : named) : Prop :=
+  exists v1 v2 n1 n2 j1 j2,
+    lookupN v1 (nm_names nm) = Some n1 /\ lookupN v2 (nm_names nm) = Some n2 /\
+    jobof (nm_state nm) v1 = Some j1 /\ jobof (nm_state nm) v2 = Some j2 /\ j1 <> j2 /\
+    internal_of n1 = internal_of n2.
+
+Lemma names_unique_refuted_proof :
+  exists g roots nm, wf g = true /\ wf_roots g roots = true /\ sanitize g roots = Ok nm /\ name_collision nm.
+Proof.
+  exists witness_f4_graph, witness_f4_roots.
+  destruct (sanitize witness_f4_graph witness_f4_roots) as [nm| |] eqn:E; [|vm_compute in E; discriminate..].
+  exists nm. split; [vm_compute; reflexivity|]. split; [vm_compute; reflexivity|]. split; [reflexivity|].
+  vm_compute in E. inversion E; subst nm; clear E.
+  exists 2%N, 6%N. eexists. eexists. eexists. eexists.
+  split; [vm_compute; reflexivity|]. split; [vm_compute; reflexivity|].
+  split; [vm_compute; reflexivity|]. split; [vm_compute; reflexivity|]. split; [discriminate|].
+  vm_compute. reflexivity.
+Qed.
+
+Definition no_collision (names : list (N * str)) : bool :=
+  forallb (fun '(v1, n1) => forallb (fun '(v2, n2) => str_eqb n1 n2 || negb (str_eqb (internal_of n1) (internal_of n2))) names) names.
+
+(* an acyclic project, well-formed in shape, without any name collision: the generated jobs are cyclic *)
+Lemma job_graph_acyclic_refuted_proof :
+  exists g roots sroots abs names jobs,
+    wf_shape g = true /\ wf_roots g roots = true /\
+    run [] false g roots sroots = Jobs abs names jobs true /\ no_collision names = true /\
+    length abs = length names.
+Proof.
+  exists witness_f13_graph, witness_f13_roots, witness_f13_sroots.
+  destruct (run [] false witness_f13_graph witness_f13_roots witness_f13_sroots) as [a n j c| | |] eqn:E;
+    [|vm_compute in E; discriminate..].
+  exists a, n, j. vm_compute in E. inversion E; subst. repeat split; vm_compute; reflexivity.
+Qed.
+
+(* ------------------------------------------------------------------ main lemmas *)
+Lemma reaches_complete st I J : Inv st -> clos_trans_1n nat (E st) I J -> reaches st I J = true.
+Proof. intros HI P. apply reaches_spec. apply reach_closed; assumption. Qed.
+
+Lemma childs_closed_invariant_proof :
+  (forall g roots st, wf g = true -> span g roots = Ok st -> closed st) /\
+  (forall st i j st', Inv st -> live st i -> live st j -> i <> j ->
+     reaches st i j = false -> reaches st j i = false -> merge_two st i j = Ok st' -> Inv st') /\
+  (forall g roots nm, wf g = true -> sanitize g roots = Ok nm -> closed (nm_state nm)) /\
+  (forall st I J, Inv st -> clos_trans_1n nat (E st) I J -> reaches st I J = true).
+Proof.
+  split; [|split; [|split]].
+  - intros g roots st W H. apply (inv_closed _ (proj1 (span_Inv g roots st W H))).
+  - intros st i j st' HI Li Lj Hij R1 R2 H. apply (merge_two_inv st i j st' HI Li Lj Hij R1 R2 H).
+  - intros g roots nm W H. apply (inv_closed _ (proj1 (sanitize_Inv g roots nm W H))).
+  - exact reaches_complete.
+Qed.
+
+Lemma merge_preserves_acyclic_proof : forall g roots nm,
+  wf g = true -> sanitize g roots = Ok nm -> forall J, ~ clos_trans_1n nat (E (nm_state nm)) J J.
+Proof. intros g roots nm W H. apply (inv_acyclic _ (proj1 (sanitize_Inv g roots nm W H))). Qed.
+
+(* ---- the recorded job graph covers the real dependencies *)
+Lemma jdep_E g st J K : Cover g st -> jdep g st J K -> E st J K.
+Proof.
+  intros HC (k & P & Q & sQ & Hk & HP & HQ & HsQ & HK).
+  destruct (HC k J Hk) as (P' & sP & H1 & _ & _ & _ & _ & H6). rewrite HP in H1. inversion H1; subst P'.
+  destruct (H6 Q sQ HQ HsQ) as (jq & Hjq & Hin). rewrite HK in Hjq. inversion Hjq; subst jq.
+  exists k. split; [exists (s_vid sQ); exact HK|]. split; [exact Hin|exact Hk].
+Qed.
+
+Lemma job_graph_acyclic_partial_proof : forall g roots nm,
+  wf g = true -> sanitize g roots = Ok nm -> forall J, ~ clos_trans_1n nat (jdep g (nm_state nm)) J J.
+Proof.
+  intros g roots nm W H J P. destruct (sanitize_Inv g roots nm W H) as (I & _ & C & _).
+  apply (inv_acyclic _ I J). eapply t1n_map; [|exact P]. intros a b. apply jdep_E. exact C.
+Qed.
+
+Lemma known_one_job st v j : Inv st -> jobof st v = Some j -> in_exactly_one_job st v.
+Proof.
+  intros I Hv. exists j. split; [exists v; exact Hv|]. split; [apply (inv_in _ I), Hv|].
+  intros K LK Hin. pose proof (inv_own _ I K v LK Hin). congruence.
+Qed.
+
+Lemma needed_known g st roots : Cover g st -> roots_known g roots st -> wf_roots g roots = true ->
+  forall k, needed g st roots k -> exists j, jobof st k = Some j.
+Proof.
+  intros HC HR WR k Hn. induction Hn as [r s Hr Hs|k P Q sQ _ [j Hj] HP HQ HsQ].
+  - apply (HR r s Hr Hs). unfold wf_roots in WR. rewrite forallb_forall in WR. specialize (WR r Hr). now rewrite Hs in WR.
+  - destruct (HC k j Hj) as (P' & sP & H1 & _ & _ & _ & _ & H6). rewrite HP in H1. inversion H1; subst P'.
+    destruct (H6 Q sQ HQ HsQ) as (jq & Hjq & _). exists jq. exact Hjq.
+Qed.
+
+Lemma every_needed_variant_in_exactly_one_job_proof : forall g roots nm,
+  wf g = true -> wf_roots g roots = true -> sanitize g roots = Ok nm ->
+  forall k, needed g (nm_state nm) roots k -> in_exactly_one_job (nm_state nm) k.
+Proof.
+  intros g roots nm W WR H k Hn. destruct (sanitize_Inv g roots nm W H) as (I & _ & C & R).
+  destruct (needed_known g _ roots C R WR k Hn) as [j Hj]. eapply known_one_job; eassumption.
+Qed.
+
+Lemma target_is_pkg g d Q : target g d Q -> exists sQ, nth_error g Q = Some sQ /\ is_pkg sQ = true.
+Proof. induction 1 as [d sd H1 H2|d sd e q _ _ _ _ IH]; [exists sd; auto|exact IH]. Qed.
+
+Lemma every_reachable_pkg_in_exactly_one_job_proof : forall g roots nm,
+  wf g = true -> wf_roots g roots = true -> consistent_deps g -> sanitize g roots = Ok nm ->
+  forall Q sQ, reachable g roots Q -> nth_error g Q = Some sQ -> in_exactly_one_job (nm_state nm) (s_vid sQ).
+Proof.
+  intros g roots nm W WR CD H Q sQ HQ HsQ. destruct (sanitize_Inv g roots nm W H) as (I & _ & C & R).
+  assert (K : exists j, jobof (nm_state nm) (s_vid sQ) = Some j /\ is_pkg sQ = true).
+  { revert sQ HsQ. induction HQ as [r Hr|P Q HP IH HPQ]; intros sQ HsQ.
+    - assert (Hp : is_pkg sQ = true).
+      { unfold wf_roots in WR. rewrite forallb_forall in WR. specialize (WR r Hr). now rewrite HsQ in WR. }
+      destruct (R r sQ Hr HsQ Hp) as [j Hj]. exists j. auto.
+    - destruct HPQ as (sP & e & HsP & HpP & He & HT). destruct (IH sP HsP) as (j & Hj & _).
+      destruct (C (s_vid sP) j Hj) as (P' & sP' & H1 & H2 & H3 & H4 & _ & H6).
+      destruct (CD P P' sP sP' Q sQ HsP H2 HpP H3 (eq_sym H4)) as (Q' & sQ' & HPQ' & HsQ' & Hv); auto.
+      { exists sP, e. auto. }
+      destruct (H6 Q' sQ' HPQ' HsQ') as (jq & Hjq & _). rewrite Hv in Hjq.
+      destruct (target_is_pkg g e Q HT) as (sQ0 & A & B). rewrite HsQ in A. inversion A; subst sQ0.
+      exists jq. auto. }
+  destruct K as (j & Hj & _). eapply known_one_job; eassumption.
+Qed.
+
+(* a job depends on the jobs of all dependencies of its packages, and never on itself *)
+Lemma job_depends_on_jobs_of_deps_proof : forall g roots nm,
+  wf g = true -> sanitize g roots = Ok nm ->
+  forall k J P Q sQ, jobof (nm_state nm) k = Some J -> lookupN k (st_ref (nm_state nm)) = Some P ->
+  pdep g P Q -> nth_error g Q = Some sQ ->
+  exists K, jobof (nm_state nm) (s_vid sQ) = Some K /\ K <> J /\ In k (pa (nm_state nm) K) /\
+            sub (pk (nm_state nm) K) (ch (nm_state nm) J) /\ sub (ch (nm_state nm) K) (ch (nm_state nm) J).
+Proof.
+  intros g roots nm W H k J P Q sQ Hk HP HQ HsQ. destruct (sanitize_Inv g roots nm W H) as (I & _ & C & _).
+  destruct (C k J Hk) as (P' & sP & H1 & _ & _ & _ & _ & H6). rewrite HP in H1. inversion H1; subst P'.
+  destruct (H6 Q sQ HQ HsQ) as (K & HK & Hin). exists K. split; [exact HK|].
+  assert (L : live (nm_state nm) K) by (exists (s_vid sQ); exact HK).
+  split; [|split; [exact Hin|apply (inv_closed _ I K k J L Hin Hk)]].
+  intros ->. apply (inv_acyclic _ I J). apply t1n_step. exists k. auto.
+Qed.
+
+(* ------------------------------------------------------------------ names *)
+Lemma In_insert_by {A} (key : A -> str) a l x : In x (insert_by key a l) <-> x = a \/ In x l.
+Proof.
+  induction l as [|y l IH]; simpl; [intuition|].
+  destruct (str_ltb (key a) (key y)); simpl; [intuition|]. rewrite IH. intuition.
+Qed.
+
+Lemma In_sort_fold {A} (key : A -> str) l : forall acc x,
+  In x (fold_left (fun acc y => insert_by key y acc) l acc) <-> In x l \/ In x acc.
+Proof.
+  induction l as [|y l IH]; intros acc x; simpl; [intuition|].
+  rewrite IH, In_insert_by. intuition.
+Qed.
+
+Lemma In_sort_by {A} (key : A -> str) l x : In x (sort_by key l) <-> In x l.
+Proof. unfold sort_by. rewrite In_sort_fold. simpl. intuition. Qed.
+
+Lemma In_flat_sort (m : list (str * list nat)) j :
+  In j (flat_map snd (sort_by fst m)) <-> In j (flat_map snd m).
+Proof.
+  rewrite !in_flat_map. split; intros (x & Hx & Hj); exists x; (split; [|exact Hj]); apply In_sort_by in Hx || apply In_sort_by; exact Hx.
+Qed.
+
+Lemma In_fn_append name js fnm j :
+  In j (flat_map snd (fn_append name js fnm)) <-> In j (flat_map snd fnm) \/ In j js.
+Proof.
+  unfold fn_append. induction fnm as [|[k0 v0] m IH]; simpl.
+  - rewrite app_nil_r. intuition.
+  - destruct (str_eqb name k0); simpl; rewrite !in_app_iff; [intuition|]. rewrite IH. intuition.
+Qed.
+
+Lemma final_names_jobs_In st : forall jobs fnm fnm', final_names_jobs st jobs fnm = Ok fnm' ->
+  forall j, In j (flat_map snd fnm') <-> In j (flat_map snd fnm) \/ In j jobs.
+Proof.
+  induction jobs as [|a jobs IH]; intros fnm fnm' H j; simpl in H.
+  - inversion H; subst. simpl. intuition.
+  - destruct (longest_prefix st (a_pkgs (get_job st a))) as [n| |]; try discriminate.
+    rewrite (IH _ _ H j), In_fn_append. simpl. intuition.
+Qed.
+
+Lemma final_names_In st : forall items fnm fnm', final_names st items fnm = Ok fnm' ->
+  forall j, In j (flat_map snd fnm') <-> In j (flat_map snd fnm) \/ In j (flat_map snd items).
+Proof.
+  induction items as [|[name jobs] items IH]; intros fnm fnm' H j; simpl in H.
+  - inversion H; subst. simpl. intuition.
+  - simpl. rewrite in_app_iff. destruct (Nat.ltb 1 (length jobs)).
+    + destruct (final_names_jobs st jobs fnm) as [f1| |] eqn:E1; try discriminate.
+      rewrite (IH _ _ H j), (final_names_jobs_In st _ _ _ E1 j). intuition.
+    + rewrite (IH _ _ H j), In_fn_append. intuition.
+Qed.
+
+Lemma assign_lookup ps name : forall pn v,
+  lookupN v (assign ps name pn) = if mem v ps then Some name else lookupN v pn.
+Proof.
+  unfold assign. induction ps as [|p r IH]; intros pn v; simpl; [reflexivity|].
+  rewrite IH. simpl. destruct (mem v r); [now rewrite orb_true_r|]. rewrite orb_false_r. reflexivity.
+Qed.
+
+(* two packages that are in the same jobs get the same name *)
+Definition same_jobs (st : sstate) (jobs : list nat) (v1 v2 : N) : Prop :=
+  forall j, In j jobs -> mem v1 (pk st j) = mem v2 (pk st j).
+
+Lemma number_jobs_same st name : forall jobs i pn v1 v2,
+  same_jobs st jobs v1 v2 -> lookupN v1 pn = lookupN v2 pn ->
+  lookupN v1 (number_jobs st name i jobs pn) = lookupN v2 (number_jobs st name i jobs pn).
+Proof.
+  induction jobs as [|j jobs IH]; intros i pn v1 v2 HS HE; simpl; [exact HE|].
+  apply IH; [intros k Hk; apply HS; right; exact Hk|].
+  rewrite !assign_lookup. fold (pk st j). rewrite (HS j (or_introl eq_refl)). destruct (mem v2 (pk st j)); auto.
+Qed.
+
+Lemma package_names_same st : forall items pn v1 v2,
+  same_jobs st (flat_map snd items) v1 v2 -> lookupN v1 pn = lookupN v2 pn ->
+  lookupN v1 (package_names st items pn) = lookupN v2 (package_names st items pn).
+Proof.
+  induction items as [|[name jobs] items IH]; intros pn v1 v2 HS HE; simpl; [exact HE|].
+  assert (HS1 : same_jobs st jobs v1 v2) by (intros k Hk; apply HS; simpl; apply in_or_app; left; exact Hk).
+  assert (HS2 : same_jobs st (flat_map snd items) v1 v2) by (intros k Hk; apply HS; simpl; apply in_or_app; right; exact Hk).
+  destruct jobs as [|j [|j2 jobs]].
+  - apply IH; [exact HS2|exact HE].
+  - apply IH; [exact HS2|]. rewrite !assign_lookup. fold (pk st j). rewrite (HS1 j (or_introl eq_refl)).
+    destruct (mem v2 (pk st j)); auto.
+  - apply IH; [exact HS2|]. apply number_jobs_same; assumption.
+Qed.
+
+Lemma number_jobs_some st name : forall jobs i pn v,
+  (lookupN v pn <> None \/ exists j, In j jobs /\ In v (pk st j)) ->
+  lookupN v (number_jobs st name i jobs pn) <> None.
+Proof.
+  induction jobs as [|j jobs IH]; intros i pn v H; simpl.
+  - destruct H as [H|(j & [] & _)]. exact H.
+  - apply IH. rewrite assign_lookup. fold (pk st j). destruct (mem v (pk st j)) eqn:Em; [left; discriminate|].
+    destruct H as [H|(k & [<-|Hk] & Hv)]; [left; exact H| |right; exists k; auto].
+    apply mem_In in Hv. congruence.
+Qed.
+
+Lemma package_names_some st : forall items pn v,
+  (lookupN v pn <> None \/ exists j, In j (flat_map snd items) /\ In v (pk st j)) ->
+  lookupN v (package_names st items pn) <> None.
+Proof.
+  induction items as [|[name jobs] items IH]; intros pn v H; simpl.
+  - destruct H as [H|(j & [] & _)]. exact H.
+  - assert (C : (lookupN v pn <> None \/ exists j, In j jobs /\ In v (pk st j)) \/
+                exists j, In j (flat_map snd items) /\ In v (pk st j)).
+    { destruct H as [H|(j & Hj & Hv)]; [left; left; exact H|]. simpl in Hj. apply in_app_or in Hj as [Hj|Hj]; [left; right|right]; exists j; auto. }
+    destruct jobs as [|j [|j2 jobs]]; apply IH.
+    + destruct C as [[C|(j & [] & _)]|C]; [left; exact C|right; exact C].
+    + rewrite assign_lookup. fold (pk st j). destruct (mem v (pk st j)) eqn:Em; [left; discriminate|].
+      destruct C as [[C|(k & [<-|[]] & Hv)]|C]; [left; exact C| |right; exact C].
+      apply mem_In in Hv. congruence.
+    + destruct C as [C|C]; [left; apply number_jobs_some; exact C|right; exact C].
+Qed.
+
+(* a job has one name, and every package that was spanned has a name *)
+Lemma names_unique_partial_proof : forall g roots nm,
+  wf g = true -> sanitize g roots = Ok nm ->
+  (forall v j, jobof (nm_state nm) v = Some j -> exists n, lookupN v (nm_names nm) = Some n) /\
+  (forall v1 v2 j, jobof (nm_state nm) v1 = Some j -> jobof (nm_state nm) v2 = Some j ->
+                   lookupN v1 (nm_names nm) = lookupN v2 (nm_names nm)).
+Proof.
+  intros g roots nm W H. destruct (sanitize_Inv g roots nm W H) as (I & L & _ & _).
+  unfold sanitize in H.
+  destruct (span g roots) as [st0| |]; try discriminate.
+  destruct (merge_all st0) as [st| |]; try discriminate.
+  destruct (final_names st (sort_by fst (st_n2j st)) []) as [fnm| |] eqn:Ef; try discriminate.
+  inversion H; subst nm; clear H. simpl in *.
+  assert (HJ : forall j, In j (flat_map snd (sort_by fst fnm)) <-> live st j).
+  { intros j. rewrite In_flat_sort, (final_names_In st _ _ _ Ef j). simpl. rewrite In_flat_sort.
+    split; [intros [[]|Hj]; apply (li_live _ L), Hj|intros Hj; right; apply (li_all _ L), Hj]. }
+  split.
+  - intros v j Hv. destruct (lookupN v (package_names st (sort_by fst fnm) [])) as [n|] eqn:E; [exists n; reflexivity|].
+    exfalso. revert E. apply package_names_some. right. exists j. split; [apply HJ; exists v; exact Hv|apply (inv_in _ I), Hv].
+  - intros v1 v2 j H1 H2. apply package_names_same; [|reflexivity].
+    intros k Hk. apply HJ in Hk.
+    destruct (mem v1 (pk st k)) eqn:E1, (mem v2 (pk st k)) eqn:E2; try reflexivity; exfalso.
+    + apply mem_In in E1. pose proof (inv_own _ I k v1 Hk E1) as A. rewrite H1 in A. inversion A; subst k.
+      apply mem_false in E2. apply E2. apply (inv_in _ I), H2.
+    + apply mem_In in E2. pose proof (inv_own _ I k v2 Hk E2) as A. rewrite H2 in A. inversion A; subst k.
+      apply mem_false in E1. apply E1. apply (inv_in _ I), H1.
+Qed.
+
+(* ------------------------------------------------------------------ JenkinsJob.addStep / _genJenkinsJobs *)
+Lemma str_eqb_refl a : str_eqb a a = true.
+Proof. induction a as [|x a IH]; simpl; [reflexivity|]. now rewrite N.eqb_refl, IH. Qed.
+
+Lemma str_eqb_eq a b : str_eqb a b = true <-> a = b.
+Proof.
+  revert b; induction a as [|x a IH]; intros [|y b]; simpl; split; intro H; try congruence; try reflexivity.
+  - apply andb_true_iff in H as [H1 H2]. apply N.eqb_eq in H1. apply IH in H2. congruence.
+  - inversion H; subst. now rewrite N.eqb_refl, str_eqb_refl.
+Qed.
+
+Lemma lookup_update_str {A} k (f : option A -> A) (m : list (str * A)) n :
+  lookup_str n (update_str k f m) = if str_eqb n k then Some (f (lookup_str k m)) else lookup_str n m.
+Proof.
+  induction m as [|[k0 v0] m IH]; simpl.
+  - destruct (str_eqb n k); reflexivity.
+  - destruct (str_eqb k k0) eqn:E; simpl.
+    + apply str_eqb_eq in E. subst k0. destruct (str_eqb n k); reflexivity.
+    + rewrite IH. destruct (str_eqb n k0) eqn:E0; [|reflexivity].
+      destruct (str_eqb n k) eqn:E1; [|reflexivity].
+      apply str_eqb_eq in E0, E1. subst. rewrite str_eqb_refl in E. discriminate.
+Qed.
+
+Definition have (jj : jjob) (v : N) : Prop := In v (j_steps jj) \/ In v (map fst (j_deps jj)).
+
+Definition deps_wf (g : graph) (deps : list (N * nat)) : Prop :=
+  forall v d, In (v, d) deps -> exists sd, nth_error g d = Some sd /\ s_vid sd = v /\ s_valid sd = true.
+
+(* every variant built by the job has an instance all of whose valid dependencies are built by the job
+   or recorded as dependencies; recorded dependencies are valid steps that the job does not build *)
+Definition JJ_ok (g : graph) (jj : jjob) : Prop :=
+  deps_wf g (j_deps jj) /\
+  (forall v, In v (map fst (j_deps jj)) -> ~ In v (j_steps jj)) /\
+  (forall v, In v (j_steps jj) -> exists sid s, nth_error g sid = Some s /\ s_vid s = v /\
+     forall d sd, In d (alldeps s) -> nth_error g d = Some sd -> s_valid sd = true -> have jj (s_vid sd)).
+
+Lemma lookupN_In {A} k (v : A) m : lookupN k m = Some v -> In (k, v) m.
+Proof.
+  induction m as [|[k0 v0] m IH]; simpl; [discriminate|]. destruct (N.eqb k k0) eqn:E.
+  - intros H. inversion H; subst. apply N.eqb_eq in E. subst. left. reflexivity.
+  - intros H. right. apply IH, H.
+Qed.
+
+Lemma lookupN_None {A} k (m : list (N * A)) : lookupN k m = None -> ~ In k (map fst m).
+Proof.
+  induction m as [|[k0 v0] m IH]; simpl; [tauto|]. destruct (N.eqb k k0) eqn:E; [discriminate|].
+  intros H [H1|H1]; [apply N.eqb_neq in E; congruence|exact (IH H H1)].
+Qed.
+
+Lemma In_setdefaultN {A} k (v : A) m e : In e (setdefaultN k v m) <-> In e m \/ (lookupN k m = None /\ e = (k, v)).
+Proof.
+  unfold setdefaultN. destruct (lookupN k m) eqn:E.
+  - split; [auto|intros [H|[H _]]; [exact H|discriminate]].
+  - rewrite in_app_iff. simpl. split; intros [H|H]; auto.
+    + destruct H as [<-|[]]. auto.
+    + destruct H as [_ ->]. auto.
+Qed.
+
+Lemma setdefaultN_key {A} k (v : A) m : In k (map fst (setdefaultN k v m)).
+Proof.
+  unfold setdefaultN. destruct (lookupN k m) eqn:E.
+  - apply lookupN_In in E. apply in_map_iff. exists (k, a). auto.
+  - rewrite map_app, in_app_iff. right. left. reflexivity.
+Qed.
+
+Lemma In_remove_keyN {A} k (m : list (N * A)) v d : In (v, d) (remove_keyN k m) <-> In (v, d) m /\ v <> k.
+Proof.
+  induction m as [|[k0 v0] m IH]; simpl; [tauto|]. destruct (N.eqb k k0) eqn:E.
+  - apply N.eqb_eq in E. subst k0. rewrite IH. split; [intros [H1 H2]; auto|].
+    intros [[H|H] H2]; [inversion H; congruence|auto].
+  - apply N.eqb_neq in E. simpl. rewrite IH. split.
+    + intros [H|[H1 H2]]; [inversion H; subst; auto|auto].
+    + intros [[H|H] H2]; auto.
+Qed.
+
+Lemma add_deps_spec g : forall ds steps deps deps',
+  add_deps g ds steps deps = Ok deps' -> deps_wf g deps -> (forall v, In v (map fst deps) -> ~ In v steps) ->
+  deps_wf g deps' /\ (forall v, In v (map fst deps') -> ~ In v steps) /\
+  (forall e, In e deps -> In e deps') /\
+  (forall d sd, In d ds -> nth_error g d = Some sd -> s_valid sd = true -> In (s_vid sd) steps \/ In (s_vid sd) (map fst deps')).
+Proof.
+  induction ds as [|d ds IH]; intros steps deps deps' H W D; simpl in H.
+  - inversion H; subst. repeat split; auto. intros d sd [].
+  - destruct (nth_error g d) as [sd|] eqn:Ed; [|discriminate].
+    destruct (s_valid sd) eqn:Ev; simpl in H.
+    + destruct (mem (s_vid sd) steps) eqn:Em.
+      * destruct (IH _ _ _ H W D) as (A & B & C & F). repeat split; auto.
+        intros d0 sd0 [<-|Hd] H0 V0; [|eapply F; eassumption].
+        rewrite Ed in H0. inversion H0; subst sd0. left. apply mem_In. exact Em.
+      * assert (W1 : deps_wf g (setdefaultN (s_vid sd) d deps)).
+        { intros v d0 Hin. apply In_setdefaultN in Hin as [Hin|[_ Hin]]; [apply W; exact Hin|].
+          inversion Hin; subst. exists sd. auto. }
+        assert (D1 : forall v, In v (map fst (setdefaultN (s_vid sd) d deps)) -> ~ In v steps).
+        { intros v Hv. apply in_map_iff in Hv as ([v0 d0] & <- & Hin). simpl.
+          apply In_setdefaultN in Hin as [Hin|[_ Hin]].
+          - apply D. apply in_map_iff. exists (v0, d0). auto.
+          - inversion Hin; subst. apply mem_false. exact Em. }
+        destruct (IH _ _ _ H W1 D1) as (A & B & C & F). split; [exact A|]. split; [exact B|]. split.
+        -- intros e He. apply C. apply In_setdefaultN. left. exact He.
+        -- intros d0 sd0 [<-|Hd] H0 V0; [|eapply F; eassumption].
+           rewrite Ed in H0. inversion H0; subst sd0. right.
+           pose proof (setdefaultN_key (s_vid sd) d deps) as K. apply in_map_iff in K as ([v0 d0] & E0 & Hin).
+           simpl in E0. subst v0. apply in_map_iff. exists (s_vid sd, d0). split; [reflexivity|apply C; exact Hin].
+    + destruct (IH _ _ _ H W D) as (A & B & C & F). repeat split; auto.
+      intros d0 sd0 [<-|Hd] H0 V0; [|eapply F; eassumption]. rewrite Ed in H0. inversion H0; subst sd0. congruence.
+Qed.
+
+Lemma jj_add_step_ok g sid s jj jj' :
+  nth_error g sid = Some s -> jj_add_step g sid s jj = Ok jj' -> JJ_ok g jj -> JJ_ok g jj' /\ j_name jj' = j_name jj.
+Proof.
+  intros Hs H (W & D & B). unfold jj_add_step in H.
+  set (jj1 := match s_kind s with
+              | KCheckout => _ | KBuild => _ | KPackage => _ end) in H.
+  assert (E1 : j_steps jj1 = j_steps jj /\ j_deps jj1 = j_deps jj /\ j_name jj1 = j_name jj).
+  { unfold jj1. destruct (s_kind s); simpl; auto. }
+  destruct E1 as (E1 & E2 & E3).
+  destruct (mem (s_vid s) (j_steps jj1)) eqn:Em.
+  - inversion H; subst jj'. split; [|exact E3]. unfold JJ_ok, have. rewrite E1, E2. auto.
+  - destruct (add_deps g (alldeps s) (j_steps jj1 ++ [s_vid s]) (remove_keyN (s_vid s) (j_deps jj1))) as [deps| |] eqn:Ea; try discriminate.
+    inversion H; subst jj'; clear H. simpl. split; [|exact E3].
+    rewrite E1, E2 in Ea. rewrite E1 in Em.
+    assert (W0 : deps_wf g (remove_keyN (s_vid s) (j_deps jj))).
+    { intros v d Hin. apply In_remove_keyN in Hin as [Hin _]. apply W. exact Hin. }
+    assert (D0 : forall v, In v (map fst (remove_keyN (s_vid s) (j_deps jj))) -> ~ In v (j_steps jj ++ [s_vid s])).
+    { intros v Hv Hin. apply in_map_iff in Hv as ([v0 d0] & <- & Hd). simpl in *.
+      apply In_remove_keyN in Hd as [Hd Hne]. apply in_app_or in Hin as [Hin|[Hin|[]]]; [|congruence].
+      apply (D v0); [apply in_map_iff; exists (v0, d0); auto|exact Hin]. }
+    destruct (add_deps_spec g _ _ _ _ Ea W0 D0) as (A1 & A2 & A3 & A4).
+    unfold JJ_ok, have. simpl. rewrite E1. split; [exact A1|]. split; [exact A2|].
+    intros v Hv. apply in_app_or in Hv as [Hv|[<-|[]]].
+    + destruct (B v Hv) as (sid0 & s0 & H0 & Hv0 & F0). exists sid0, s0. split; [exact H0|]. split; [exact Hv0|].
+      intros d sd Hd Hsd Hval. destruct (F0 d sd Hd Hsd Hval) as [F|F].
+      * left. apply in_or_app. left. exact F.
+      * destruct (N.eq_dec (s_vid sd) (s_vid s)) as [E|NE].
+        -- left. apply in_or_app. right. left. symmetry. exact E.
+        -- right. apply in_map_iff in F as ([v0 d0] & E0 & Hin). simpl in E0. subst v0.
+           apply in_map_iff. exists (s_vid sd, d0). split; [reflexivity|]. apply A3. apply In_remove_keyN. auto.
+    + exists sid, s. split; [exact Hs|]. split; [reflexivity|]. intros d sd Hd Hsd Hval. apply (A4 d sd Hd Hsd Hval).
+Qed.
+
+Definition GOK (g : graph) (jobs : list (str * jjob)) : Prop :=
+  forall n jj, lookup_str n jobs = Some jj -> JJ_ok g jj.
+
+Lemma JJ_ok_empty g name disp : JJ_ok g (mkJJ name disp false [] [] [] [] []).
+Proof. split; [intros v d []|]. split; [intros v []|intros v []]. Qed.
+
+Lemma GOK_update g jobs name jj' : GOK g jobs -> JJ_ok g jj' -> GOK g (update_str name (fun _ => jj') jobs).
+Proof.
+  intros HG HJ n jj H. rewrite lookup_update_str in H. destruct (str_eqb n name).
+  - inversion H; subst. exact HJ.
+  - apply (HG n jj H).
+Qed.
+
+Definition GenSpec (g : graph) (rec : nat -> gstate -> res gstate) : Prop :=
+  forall d gs gs', rec d gs = Ok gs' -> GOK g (g_jobs gs) -> GOK g (g_jobs gs').
+
+Lemma loop_gen_ok g rec : GenSpec g rec -> forall ds gs gs', loop_gen rec ds gs = Ok gs' -> GOK g (g_jobs gs) -> GOK g (g_jobs gs').
+Proof.
+  intros HR. induction ds as [|d ds IH]; intros gs gs' H HG; simpl in H; [inversion H; subst; exact HG|].
+  destruct (rec d gs) as [gs1| |] eqn:E; try discriminate. apply (IH gs1 gs' H). apply (HR d gs gs1 E HG).
+Qed.
+
+Lemma loop_gen_seen_ok g rec : GenSpec g rec -> forall ds gs gs', loop_gen_seen g rec ds gs = Ok gs' -> GOK g (g_jobs gs) -> GOK g (g_jobs gs').
+Proof.
+  intros HR. induction ds as [|d ds IH]; intros gs gs' H HG; simpl in H; [inversion H; subst; exact HG|].
+  destruct (nth_error g d) as [sd|]; [|discriminate].
+  destruct (mem (s_stack sd) (g_seen gs)); [apply (IH gs gs' H HG)|].
+  destruct (rec d _) as [gs1| |] eqn:E; try discriminate. apply (IH gs1 gs' H). apply (HR d _ gs1 E). exact HG.
+Qed.
+
+Lemma gen_jobs_ok prefix short g nm : forall fuel, GenSpec g (gen_jobs fuel prefix short g nm).
+Proof.
+  induction fuel as [|f IH]; intros sid0 gs gs' H HG; [discriminate|].
+  cbn [gen_jobs] in H.
+  destruct (nth_error g sid0) as [s0|]; [|discriminate].
+  destruct (if is_pkg s0 then lookupN (s_vid s0) (st_ref (nm_state nm)) else Some sid0) as [sid|]; [|discriminate].
+  destruct (nth_error g sid) as [s|] eqn:Hs; [|discriminate].
+  destruct (internal_name prefix g nm s) as [name| |]; destruct (display_name prefix g nm s) as [disp| |]; try discriminate.
+  destruct (is_pkg s && short && mem (s_vid s) (g_vids gs)).
+  - destruct (lookup_str name (g_jobs gs)); [|discriminate]. inversion H; subst. exact HG.
+  - set (jj := match lookup_str name (g_jobs gs) with Some jj => jj | None => _ end) in H.
+    assert (HJ : JJ_ok g jj).
+    { unfold jj. destruct (lookup_str name (g_jobs gs)) as [jj0|] eqn:E; [apply (HG name jj0 E)|apply JJ_ok_empty]. }
+    destruct (jj_add_step g sid s jj) as [jj'| |] eqn:Ea; try discriminate.
+    destruct (jj_add_step_ok g sid s jj jj' Hs Ea HJ) as [HJ' _].
+    match type of H with match loop_gen _ ?args ?gs1 with _ => _ end = _ =>
+      destruct (loop_gen (gen_jobs f prefix short g nm) args gs1) as [gs2| |] eqn:El; try discriminate;
+      assert (G2 : GOK g (g_jobs gs2)) by (apply (loop_gen_ok g _ IH _ _ _ El); simpl; apply GOK_update; assumption)
+    end.
+    destruct (is_pkg s).
+    + apply (loop_gen_seen_ok g _ IH _ _ _ H G2).
+    + inversion H; subst. exact G2.
+Qed.
+
+Lemma make_root_ok g n jobs : GOK g jobs -> GOK g (make_root n jobs).
+Proof.
+  intros HG. unfold make_root. destruct (lookup_str n jobs) as [jj|] eqn:E; [|exact HG].
+  apply GOK_update; [exact HG|]. apply (HG n jj E).
+Qed.
+
+Lemma gen_roots_ok prefix short g nm : forall roots jobs jobs',
+  gen_roots prefix short g nm roots jobs = Ok jobs' -> GOK g jobs -> GOK g jobs'.
+Proof.
+  induction roots as [|r rest IH]; intros jobs jobs' H HG; cbn [gen_roots] in H; [inversion H; subst; exact HG|].
+  destruct (gen_jobs (S (S (length g))) prefix short g nm r (mkG jobs [] [])) as [gs| |] eqn:Eg; try discriminate.
+  pose proof (gen_jobs_ok prefix short g nm _ r _ gs Eg HG) as G1.
+  match type of H with match ?o with Some n => _ | None => _ end = _ => destruct o as [n|]; [|discriminate] end.
+  apply (IH _ _ H). apply make_root_ok. exact G1.
+Qed.
+
+Lemma In_add_name n l x : In x (add_name n l) <-> In x l \/ x = n.
+Proof.
+  induction l as [|y l IH]; simpl; [intuition|]. destruct (str_eqb n y) eqn:E.
+  - apply str_eqb_eq in E. subst y. simpl. intuition.
+  - simpl. rewrite IH. intuition.
+Qed.
+
+Lemma upstream_of_spec prefix g nm : forall deps acc ups,
+  upstream_of prefix g nm deps acc = Ok ups ->
+  (forall n, In n acc -> In n ups) /\
+  (forall v d sd, In (v, d) deps -> nth_error g d = Some sd -> exists n, internal_name prefix g nm sd = Ok n /\ In n ups).
+Proof.
+  induction deps as [|[v d] deps IH]; intros acc ups H; simpl in H.
+  - inversion H; subst. split; [auto|intros v d sd []].
+  - destruct (nth_error g d) as [sd|] eqn:Ed; [|discriminate].
+    destruct (internal_name prefix g nm sd) as [n| |] eqn:En; try discriminate.
+    destruct (IH _ _ H) as [A B]. split.
+    + intros n0 Hn. apply A. apply In_add_name. left. exact Hn.
+    + intros v0 d0 sd0 [Hin|Hin] Hd0.
+      * inversion Hin; subst. rewrite Ed in Hd0. inversion Hd0; subst sd0. exists n. split; [exact En|].
+        apply A. apply In_add_name. right. reflexivity.
+      * apply (B v0 d0 sd0 Hin Hd0).
+Qed.
+
+(* every variant a Jenkins job builds has an instance whose valid dependencies (arguments, tools, sandbox)
+   are all either built by the same job or the internal name of their job is among the upstream jobs *)
+Lemma jenkins_job_upstream_complete_proof : forall prefix short g nm roots jobs n jj ups,
+  gen_roots prefix short g nm roots [] = Ok jobs -> lookup_str n jobs = Some jj ->
+  upstream prefix g nm jj = Ok ups ->
+  forall v, In v (j_steps jj) -> exists sid s, nth_error g sid = Some s /\ s_vid s = v /\
+    forall d sd, In d (alldeps s) -> nth_error g d = Some sd -> s_valid sd = true ->
+      In (s_vid sd) (j_steps jj) \/
+      (~ In (s_vid sd) (j_steps jj) /\
+       exists d' sd' m, nth_error g d' = Some sd' /\ s_vid sd' = s_vid sd /\ s_valid sd' = true /\
+                        internal_name prefix g nm sd' = Ok m /\ In m ups).
+Proof.
+  intros prefix short g nm roots jobs n jj ups H Hn Hu v Hv.
+  assert (HG : GOK g jobs) by (eapply gen_roots_ok; [exact H|intros ? ? E; discriminate]).
+  destruct (HG n jj Hn) as (W & D & B). destruct (B v Hv) as (sid & s & Hs & Hvs & F).
+  exists sid, s. split; [exact Hs|]. split; [exact Hvs|]. intros d sd Hd Hsd Hval.
+  destruct (F d sd Hd Hsd Hval) as [A|A]; [left; exact A|right]. split; [apply D; exact A|].
+  apply in_map_iff in A as ([v0 d'] & E0 & Hin). simpl in E0. subst v0.
+  destruct (W _ _ Hin) as (sd' & Hd' & Hv' & Hval'). unfold upstream in Hu.
+  destruct (upstream_of_spec prefix g nm _ _ _ Hu) as [_ U]. destruct (U _ _ sd' Hin Hd') as (m & Hm & Hin').
+  exists d', sd', m. auto.
 Qed.
